@@ -154,6 +154,14 @@ def run_schedule(scn_def, schedule, keep_log=False):
                 for ev in gen:
                     loop_events.append(ev.name)
                     loop_marks.append((ev.name, getattr(ev, "data", None), len(sim.log)))
+                    if ev.name in react and react[ev.name][0] == "abandon":
+                        # the consumer stops iterating at this event: gen.close() / drops the generator (the loop's
+                        # clean-up then runs on this thread, under the scheduler)
+                        res.append((list(react[ev.name]), "abandoned", None))
+                        if react[ev.name][1] == "gen_close":
+                            gen.close()
+                        out.abandoned_with = react[ev.name][1]
+                        return
                     if ev.name in react:
                         # the application's handler on the event-loop thread reacts to the event
                         call = list(react[ev.name])
@@ -173,6 +181,8 @@ def run_schedule(scn_def, schedule, keep_log=False):
         out.loop_events = list(loop_events)
         out.loop_marks = list(loop_marks)
         out.send_log = [(i, e[2]) for i, e in enumerate(sim.log) if i >= mark and e[0] == "send"]
+        out.socks = [(st.sid, st.closed, st.shutdown_called, st.finalised, st.broken) for st in sim.socks]
+        out.selectors_open = [x for x in sim.selectors if not x[2]]
         out.taken = list(sched.taken)
         out.vacuous = list(sched.vacuous)
         out.steps = sched.step
